@@ -6,6 +6,7 @@ import FeatModel.Lemmas.C16_banded
 import FeatModel.Lemmas.C16_burgers
 import FeatModel.Lemmas.C16_blocked
 import FeatModel.Lemmas.C16_history
+import FeatModel.Lemmas.C16_local
 /-!
 # C16 — property theorems (statements only; proofs live in Lemmas/C16_*.lean)
 
@@ -20,7 +21,7 @@ polynomials of C15), the voxel assemblers; blocked value types and the Burgers o
 per-cell parameter logic (`burgers_*` theorems) and the exact route comparison of the correspondence run.
 `C16.FullStatement` records the full claim.
 -/
-open FeatModel.Asm FeatModel.Adj FeatModel.Burgers
+open FeatModel.Asm FeatModel.Adj FeatModel.Burgers FeatModel.LocalFE
 
 /-- the full property, for reference: for exact local integrals the assembled operator is the exact bilinear form.
 The theorems below prove the assembly-logic part of it: `A = Σ_cells P_cᵀ loc_c P_c` on every route/order, and the
@@ -324,3 +325,95 @@ theorem C16.history_independent_symbolic {α : Type} [Add α] [Mul α] [Zero α]
 example :
     assembleSeq (α := Int) #[some 7, some 0] [⟨⟨2, 2, [0, 1, 3], [0, 0, 1]⟩, [⟨1, [1], [1, 0], fun _ j => (j : Int) + 1⟩]⟩] =
       [some #[0, 2, 1]] := by decide
+
+/-- **blocked_routes_agree** (BCSR system matrices: Du:Dv, Laplace/identity blocked, stress-divergence, Burgers): on the
+symbolic pattern, any two orders of the same multiset of blocked cell contributions (classic cell loop, domain-assembler
+job, any layering) both succeed and give, component by component of the `h × w` blocks, the same operator. -/
+theorem C16.blocked_routes_agree {α : Type} [CommRing α] (nT nS : Nat) (tm sm : List (List Nat)) (g : Graph)
+    (hg : symbolicGraph2 nT nS tm sm = some g)
+    (hT : ∀ l ∈ tm, ∀ r ∈ l, r < nT) (hS : ∀ l ∈ sm, ∀ s ∈ l, s < nS)
+    (n : Nat) (hn : 0 < n) (calls1 calls2 : List (CellCallB α)) (hperm : calls1.Perm calls2)
+    (hlen : ∀ c ∈ calls1, ∀ i j, (c.loc i j).length = n)
+    (hcalls : ∀ c ∈ calls1, ∃ k, c.rowMap = tm.getD k [] ∧ c.colMap = sm.getD k []) :
+    ∃ st1 st2, assembleB (Pattern.ofGraph g) n calls1 = some st1 ∧ assembleB (Pattern.ofGraph g) n calls2 = some st2 ∧
+      ∀ e, e < n → ∀ (x : Nat → α) (r : Nat),
+        (Pattern.ofGraph g).apply (st1.data.map fun b => b.getD e 0) x r =
+        (Pattern.ofGraph g).apply (st2.data.map fun b => b.getD e 0) x r := by
+  have hlen2 : ∀ c ∈ calls2, ∀ i j, (c.loc i j).length = n := fun c hc => hlen c (hperm.mem_iff.mpr hc)
+  have key : ∀ e, e < n → ∃ s1 s2,
+      (assembleB (Pattern.ofGraph g) n calls1).map (fun st => st.data.map fun b => b.getD e 0) = some s1 ∧
+      (assembleB (Pattern.ofGraph g) n calls2).map (fun st => st.data.map fun b => b.getD e 0) = some s2 ∧
+      ∀ (x : Nat → α) (r : Nat), (Pattern.ofGraph g).apply s1 x r = (Pattern.ofGraph g).apply s2 x r := by
+    intro e he
+    obtain ⟨t1, t2, h1, h2, hsem⟩ := C16.routes_agree nT nS tm sm g hg hT hS
+      (calls1.map fun c => c.comp e) (calls2.map fun c => c.comp e) (hperm.map _)
+      (fun c hc => by
+        obtain ⟨cb, hcb, rfl⟩ := List.mem_map.mp hc
+        exact hcalls cb hcb)
+    refine ⟨t1.data, t2.data, ?_, ?_, hsem⟩
+    · rw [C16.block_route_agree (Pattern.ofGraph g) n e he calls1 hlen _ rfl, h1]; rfl
+    · rw [C16.block_route_agree (Pattern.ofGraph g) n e he calls2 hlen2 _ rfl, h2]; rfl
+  obtain ⟨s1, s2, k1, k2, _⟩ := key 0 hn
+  cases hb1 : assembleB (Pattern.ofGraph g) n calls1 with
+  | none => rw [hb1] at k1; cases k1
+  | some st1 =>
+    cases hb2 : assembleB (Pattern.ofGraph g) n calls2 with
+    | none => rw [hb2] at k2; cases k2
+    | some st2 =>
+      refine ⟨st1, st2, rfl, rfl, fun e he x r => ?_⟩
+      obtain ⟨u1, u2, j1, j2, hsem⟩ := key e he
+      rw [hb1] at j1; rw [hb2] at j2
+      simp only [Option.map_some, Option.some.injEq] at j1 j2
+      rw [j1, j2]
+      exact hsem x r
+
+/-! ### the local integrals (goal: `FullStatement` on affine cells)
+
+The exact integral of a polynomial over the reference cell is *defined* through C14's reference integrals of the
+monomials (`Cub.refNum/refDen`), extended linearly, and over an affine cell by the constant factor `|det J|`
+(change of variables); the identification with the Lebesgue integral is not formalised.
+On non-affine (multilinear) quadrilaterals/hexahedra `det J` is a polynomial and `J⁻¹` a rational function of the
+reference coordinates: the mass/force integrands stay polynomial (exact with a rule of degree `2k + d - 1`, observed by
+the correspondence oracle), the Laplace-type integrands are rational and are **not** integrated exactly by any rule —
+the statements below are for affine cells (simplices, parallelograms/parallelepipeds) only. -/
+
+/-- **local_integral_exact**: the local entry as coded, `Σ_q F(x_q) · (|det J| · w_q)`, equals the exact integral
+`|det J| · ∫_ref F` whenever the rule is exact on the monomials of the integrand `F` (linearity). -/
+theorem C16.local_integral_exact (r : Rule) (simplex : Bool) (d : Nat) (ms : List FeatModel.Poly.Mono) (detJ : Rat)
+    (F : FeatModel.Poly.Poly) (hex : r.exactOn simplex d ms = true) (hF : monosIn F ms = true) :
+    localEntry r detJ F = cellInt simplex d detJ F :=
+  C16L.local_exact r simplex d ms detJ F hex hF
+
+/-- the exactness hypothesis is discharged for the rational rules of kernel/cubature (as filled at `Q`): Newton–Cotes
+closed 2..5, Simpson, trapezoidal, barycentre on the line and the square (tensor products, per-variable degree), barycentre,
+trapezoidal and Lauffer degree 2 on the triangle (total degree) — by kernel evaluation of the cubature sums -/
+theorem C16.rules_exact : exactTableOK = true := by decide +kernel
+
+/-- the identity and Laplace integrands of Lagrange-1/2 (C15's reference polynomials) on the line, square and triangle
+consist of monomials of degree `≤ 2k` -/
+theorem C16.integrands_polynomial : integrandsOK = true := by decide +kernel
+
+/-- **full_statement_affine**: on a mesh of affine cells, with a rule that is exact on the monomials of all local
+integrands, the assembly on the symbolic pattern (any cell order) succeeds and the assembled operator is
+`Σ_cells α_c · P_cᵀ · (∫_K integrand_ij)_ij · P_c`: each coupling of global DOFs receives the sum over the cells of the
+exact integrals of the products of its basis functions, i.e. the matrix of the bilinear form on the basis. -/
+theorem C16.full_statement_affine (nT nS : Nat) (tm sm : List (List Nat)) (g : Graph)
+    (hg : symbolicGraph2 nT nS tm sm = some g)
+    (hT : ∀ l ∈ tm, ∀ r ∈ l, r < nT) (hS : ∀ l ∈ sm, ∀ s ∈ l, s < nS)
+    (r : Rule) (simplex : Bool) (d : Nat) (ms : List FeatModel.Poly.Mono) (hex : r.exactOn simplex d ms = true)
+    (cells : List CellData)
+    (hcells : ∀ c ∈ cells, ∃ k, c.rowMap = tm.getD k [] ∧ c.colMap = sm.getD k [])
+    (hF : ∀ c ∈ cells, ∀ i j, monosIn (c.F i j) ms = true) :
+    ∃ st, assemble (Pattern.ofGraph g) (cells.map (CellData.asCoded r)) = some st ∧
+      ∀ (x : Nat → Rat) (row : Nat), (Pattern.ofGraph g).apply st.data x row =
+        (cells.map fun c => c.alpha * (c.exact simplex d).contrib x row).sum := by
+  have heq : cells.map (CellData.asCoded r) = cells.map (CellData.exact simplex d) :=
+    List.map_congr_left fun c hc => C16L.asCoded_eq_exact r simplex d ms c hex (hF c hc)
+  rw [heq]
+  obtain ⟨st, h, _, sem⟩ := C16.assembled_eq_sum nT nS tm sm g hg hT hS (cells.map (CellData.exact simplex d))
+    (fun c hc => by
+      obtain ⟨c', hc', rfl⟩ := List.mem_map.mp hc
+      exact hcells c' hc')
+  refine ⟨st, h, fun x row => ?_⟩
+  rw [sem, List.map_map]
+  rfl
